@@ -14,7 +14,7 @@ import numpy as np
 from ..common import HarnessError, REPO, Report, VERIF, pmap
 
 PID = "C07"
-ACTS = ["draw17", "runother", "runother_seeded", "construct_only", "run_noisy", "options_logging", "run_1d_narrow", "same_arrays_first", "printoptions", "run_double_refit", "printformatter"]
+ACTS = ["draw17", "runother", "runother_seeded", "construct_only", "run_noisy", "options_logging", "run_1d_narrow", "same_arrays_first", "printoptions", "run_double_refit", "printformatter", "same_options_first"]
 _SHARED = {}
 
 
@@ -27,6 +27,17 @@ def shared_bounds():
 
 
 
+_SHARED_OPTS = {}
+
+
+def shared_options():
+    """One options dict, with array-valued entries, that the caller hands to several noisy optimisations in turn."""
+    if not _SHARED_OPTS:
+        _SHARED_OPTS.update({"display": "off", "random_seed": 7, "max_fun_evals": np.array(62), "noise_final_samples": 3, "uncertainty_handling": True,
+                             "noise_size": np.array([0.5]), "tol_mesh": np.array(1e-5)})
+    return _SHARED_OPTS
+
+
 def problems(quick):
     ps = []
     for kind in ("det", "noisy"):
@@ -35,6 +46,7 @@ def problems(quick):
                 ps.append(dict(kind=kind, x0=x0, D=D, mfe=40 if kind == "det" else 55))
     ps.append(dict(kind="det", x0="absent", D=2, mfe=40, seed=0))   # random_seed = 0 is a seed like any other
     ps.append(dict(kind="logshared", x0="given", D=2, mfe=40))       # log-scaled box whose bound arrays are shared with an earlier instance
+    ps.append(dict(kind="optshared", x0="given", D=2, mfe=62))       # noisy run built from an options dict (array-valued entries) that an earlier run used too
     ps.append(dict(kind="det", x0="absent", D=7, mfe=45))            # the initial design seed is derived from a printed array (D > print threshold)
     ps.append(dict(kind="heavy", x0="given", D=1, mfe=100))   # noise far above noise_size: GP refits take their high-noise retry branch
     if not quick:
@@ -56,7 +68,7 @@ def make_instance(p):
         xx = np.asarray(x, float)
         log.update(xx.tobytes())
         v = float(np.sum((xx - 0.3) ** 2)) if p["kind"] != "logshared" else float(np.sum((np.log10(xx) - 0.3) ** 2))
-        if p["kind"] == "noisy":
+        if p["kind"] in ("noisy", "optshared"):
             v += 0.5 * float(np.random.randn())
         elif p["kind"] == "heavy":
             v += 100.0 * float(np.random.randn())
@@ -69,6 +81,8 @@ def make_instance(p):
     if p["kind"] == "logshared":
         sb = shared_bounds()
         kw = dict(lower_bounds=sb["lb"], upper_bounds=sb["ub"], plausible_lower_bounds=sb["plb"], plausible_upper_bounds=sb["pub"])
+    if p["kind"] == "optshared":
+        o = shared_options()
     if p["x0"] == "given":
         kw["x0"] = np.full((1, D), 1.0)
     if p["kind"] == "cons":
@@ -92,6 +106,9 @@ def activity(a):
              plausible_lower_bounds=sb["plb"], plausible_upper_bounds=sb["pub"], options={"display": "off", "max_fun_evals": 12, "random_seed": 5}).optimize()
     elif a == "printoptions":
         np.set_printoptions(precision=3, threshold=5, edgeitems=1, linewidth=40)
+    elif a == "same_options_first":
+        BADS(lambda x: float(np.sum(np.asarray(x) ** 2) + 0.5 * np.random.randn()), x0=np.full((1, 2), 0.5), lower_bounds=np.full((1, 2), -3.0), upper_bounds=np.full((1, 2), 3.0),
+             options=shared_options()).optimize()
     elif a == "printformatter":
         # earlier code installed NumPy print formatters (they apply to every later array-to-text conversion in the process)
         np.set_printoptions(formatter={"int_kind": lambda v: "<%d>" % v, "float_kind": lambda v: "%.2f~" % v})
